@@ -152,13 +152,26 @@ def idem_suite(res, tier, seed):
     accepted = [(c, o) for c, o in zip(cases, outs) if o[0] in ("idempotent", "not-idempotent")]
     distinct = len({repr((c["spec"], sorted(c["options"].items()), c["value"])) for c, _ in accepted})
     known_hits = {}
+    known_cases = []
     for c, o in accepted:
         if o[0] == "not-idempotent":
             fid = findings.matches_any(PID, c)
             if fid:
                 known_hits[fid] = known_hits.get(fid, 0) + 1
+                known_cases.append((c, o))
             else:
                 res.violations.append(dict(case=repr(c), observed="first parse %s, second %s" % (o[1], o[2]),
+                                           what="re-parsing a parse result does not return an equal value"))
+    # a listed finding is a behaviour of the model too: a failure that matches one is only covered by it if the model agrees with
+    # the implementation on that very case
+    if known_cases:
+        mism = parsesuite.run_suite(res, [c for c, _ in known_cases[:300]], "idem-known",
+                                    rule="the idempotence failures that match a listed finding, run through Model/Parse.v: the "
+                                         "finding covers them only where model and implementation agree")
+        bad_keys = {repr(c) for c, _ in (mism or [])}
+        for c, o in known_cases:
+            if repr(c) in bad_keys:
+                res.violations.append(dict(case=repr(c), observed="first parse %s, second %s (matches a listed finding's shape, but the model disagrees with the implementation here)" % (o[1], o[2]),
                                            what="re-parsing a parse result does not return an equal value"))
     res.add_suite("idem", len(cases), distinct, [dict(case=repr(accepted[0][0]), result=accepted[0][1][0])] if accepted else [],
                   "random (type, options, value); every accepted result is parsed again with the same type and options on "
